@@ -25,10 +25,15 @@ func C06(r *Run) *core.Report {
 		return rep
 	}
 	nCb := 0
+	names, extra := cacheMethodList(r)
 	for twin := 0; twin < 2; twin++ {
-		for _, name := range cachePublic {
+		for _, name := range names {
 			mp := methodPaths(r, twin, name)
-			if undecidedPaths(r, rep, "C06.E0", mp) {
+			if extra[name] {
+				if !cleanPaths(mp) {
+					continue
+				}
+			} else if undecidedPaths(r, rep, "C06.E0", mp) {
 				continue
 			}
 			rep.Fn(fn(mp.Fn))
@@ -51,7 +56,7 @@ func C06(r *Run) *core.Report {
 						continue
 					}
 					nCb++
-					if !removers[name] && e4 == "" {
+					if !removers[name] && !extra[name] && e4 == "" { // (an API addition may be a new removing operation; E1-E3, E5 still bind it)
 						e4 = "the evicted callback is fired at " + ev.Pos + " by a method that is not one of the removing operations (Delete, GetAndDelete, DeleteExpired / janitor)"
 					}
 					if !strings.HasPrefix(ev.Name, "evictedCallback") && e5 == "" {
